@@ -62,3 +62,12 @@ PROPS["C07"] = {
     "trusted_base": ["Gen/Globals.v regenerated from the three packages on every run", "Go race detector for memory-level races"],
     "assumptions": ["the model is at operation granularity; memory-level data races are exhibited only by the race detector on the concurrent plans", "parts are compared in a canonical form (children of the root sorted) because map iteration order decides the order of styles / notes / numbering definitions"],
 }
+
+PROPS["C15"] = {
+    "n": {"quick": 900, "thorough": 30000},
+    "per_shard": 80,
+    "corr_targets": ["Corr/ListsCorr.vo"],
+    "corr": "Corr/ListsCorr.v: Model.Lists vs numbering.xml / notes parts / TOC content control / accessors read from the saved package at every check point of a history",
+    "trusted_base": ["Gen/NumKey.v and Gen/HeadingMap.v regenerated from the sources on every run"],
+    "assumptions": ["documents created by New() (opened documents with their own notes/numbering definitions are C13's findings)"],
+}
